@@ -73,6 +73,10 @@ def tri_area():
     return _TRI_AREA
 
 
+def type_like(tp, values):
+    return list(values) if tp is list else tuple(values)
+
+
 def centre_of(lib, S, h, o):
     hilbert, tiling, face_to_ij, cpent = lib
     anchor = hilbert.s_to_anchor(S, h, o)
@@ -103,6 +107,29 @@ def check_index(acc, lib, S, h, o, keys=None, prefix=True, area_sum=None):
             a2 = hilbert.s_to_anchor(str(S), h, o)
             if tuple(a2.offset) != tuple(anchor.offset) or tuple(a2.flips) != tuple(anchor.flips) or a2.k != anchor.k:
                 acc.violation(k + ':text-index', f's_to_anchor({str(S)!r}) differs from s_to_anchor({S})', case)
+                return
+        if S % 5 == 1 or S < 4:
+            # a caller owns the anchor it was handed: it is edited (in place where it is a list, and by assignment), then the same index is
+            # converted again and must give the original lattice position
+            orig = (anchor.k, tuple(anchor.offset), tuple(anchor.flips))
+            orig_types = (type(anchor.offset), type(anchor.flips))
+            try:
+                if isinstance(anchor.offset, list):
+                    anchor.offset[0] += 1
+                    anchor.offset[1] -= 2
+                if isinstance(anchor.flips, list):
+                    anchor.flips[0] = -anchor.flips[0]
+            except Exception:
+                pass
+            anchor.offset = (orig[1][0] + 3, orig[1][1] - 1)
+            anchor.flips = (-orig[2][0], -orig[2][1])
+            anchor.k = (orig[0] + 1) % 4 if isinstance(orig[0], int) else orig[0]
+            a3 = hilbert.s_to_anchor(S, h, o)
+            acc.n['repeated_after_caller_edit'] += 1
+            # put this check's own copy back (it is used below for the distinctness key)
+            anchor.k, anchor.offset, anchor.flips = orig[0], type_like(orig_types[0], orig[1]), type_like(orig_types[1], orig[2])
+            if (a3.k, tuple(a3.offset), tuple(a3.flips)) != orig:
+                acc.violation(k + ':anchor-shared', f's_to_anchor({S}, {h}, {o!r}) returns {(a3.k, tuple(a3.offset), tuple(a3.flips))} after the caller edited the anchor returned by the previous identical call (was {orig})', case)
                 return
     except Exception as e:
         acc.violation(k + ':raises', f'raised {e!r}', case)
